@@ -18,7 +18,10 @@ CFG = dict(
     checker="check_case",
     n=dict(quick=120, thorough=3000),
     shard=15,
-    rule="histories of 10-37 datastore updates over 4 profiles, 4 policies, 3 tiers, 3 workload + 2 host endpoints, fed through "
+    rule="histories of 10-37 datastore updates, delivered to the real ValidationFilter.OnUpdates in BATCHES (a start-of-day "
+         "snapshot of 3-6 updates, then single updates and coalesced bursts of 2-6; a third of the batches are invalid-heavy: "
+         "0/1/2/3+ invalid values per batch at any positions; forwarded batch checked position by position, the caller's slice "
+         "checked for mutation), over 4 profiles, 4 policies, 3 tiers, 3 workload + 2 host endpoints, fed through "
          "the real ValidationFilter into the real ActiveRulesCalculator (3 of 4 cases: callbacks compared message for message) or "
          "into the whole real calculation graph + EventSequencer (every 4th case: proto.ActiveProfileUpdate/Remove compared as "
          "the dataplane's profile view after every update); every 5th case chains Typha's own ValidationFilter in front of "
